@@ -288,7 +288,14 @@ func c14CheckBatch(run *vlib.Run, cases []schemaCase) (map[int][]vlib.Violation,
 		for _, df := range diffs {
 			kind := modelKindAt(c.Model, d.Def, v, df[0])
 			kind = strings.TrimSuffix(kind, ":value-is-null")
-			sig := fmt.Sprintf("rebuilt-differs:%s:%s:%s:at-%s%s", f, df[1], df[2], kind, tag)
+			// a value of the object with two builders that no guard matches is
+			// converted to the empty string: inside a list / map it simply goes
+			// missing (same listed finding as the empty argument)
+			rtag := tag
+			if two := c14TwoBuildersTag(c); two != "" && df[1] == "dropped" {
+				rtag = nestedTag(c) + c14VeneerTag(c) + two + strings.TrimPrefix(tag, nestedTag(c)+c14VeneerTag(c))
+			}
+			sig := fmt.Sprintf("rebuilt-differs:%s:%s:%s:at-%s%s", f, df[1], df[2], kind, rtag)
 			if reported[sig] {
 				continue
 			}
